@@ -33,6 +33,8 @@ type runConf struct {
 	PartSize          int
 	TimeoutCommit     int
 	SkipTimeoutCommit bool
+	Life              int    // crash: contract storage life cycles in the workload (0 off, 1 light, 2 heavy)
+	Rebirth           bool   // crash: CREATE2 re-creation at the address of a self-destructed contract permitted
 	Keep              uint64 // prune: retention window K
 	KeepName          string // which member of {0,1,2,5,L-1,L,L+3}
 	PruneAt           []int  // prune: heights at which ClearHistoricalData's body runs
@@ -92,6 +94,13 @@ func drawConf(c *kernel.Ctx) runConf {
 		cf.Blocks = t.Range(3, 4)
 		if thorough {
 			cf.Blocks = t.Range(3, 6)
+		}
+		// contract storage life cycles: their own stream (the "config" stream keeps its meaning)
+		lt := c.Tape.Fork("life-config")
+		cf.Life = lt.Pick(1, 2, 3)
+		cf.Rebirth = cf.Life > 0 && lt.Bool(1, 3)
+		if cf.Life == 2 && lt.Bool(1, 2) {
+			cf.Blocks++
 		}
 		return cf
 	}
@@ -171,6 +180,8 @@ func (w *world) genesis() (*durable, error) {
 		}
 	}
 	w.txg = txgen.New(w.c.Tape.Fork("workload"), txgen.Config{Accounts: 4, Kinds: kinds, Weights: weights, Utxo: conf.Utxo, Validators: []simnode.ValKey{w.key}})
+	w.life = txgen.NewLife(w.txg, w.c.Tape.Fork("life"))
+	w.life.Rebirth = conf.Rebirth
 	gen.Alloc = w.txg.Alloc()
 	w.txg.KnowGenesis(config.ContractValidatorsAddr, common.EmptyAddress, w.key.CoinBase)
 	if conf.Elections {
